@@ -51,10 +51,12 @@ Near == << [X0 EXCEPT !.restTypes = {"script"}], [X0 EXCEPT !.important = TRUE],
            \* the same permitted record type plus an excluded one; the same pattern in another letter case
            [X0 EXCEPT !.restDns = {"AAAA"}], [X0 EXCEPT !.pat = Str("||H.test^")],
            \* a negated flag modifier
-           [X0 EXCEPT !.mcase = "off"] >>
+           [X0 EXCEPT !.mcase = "off"],
+           \* a pattern that ends in "/*" twice: only the last "/*" is read as "^"
+           [X0 EXCEPT !.pat = Str("||h.test/*/*")] >>
 X1 == [M0 EXCEPT !.rewrite = RW(Str("1.2.3.4"))]
 BadfilterMain == <<X0, Bf(X0)>> \o Near \o [k \in 1..Len(Near) |-> Bf(Near[k])]
-                 \o << M0, Bf(M0), Al(FALSE, FALSE, {}), Bf(Al(FALSE, FALSE, {})), Al(TRUE, FALSE, {}),
+                 \o << M0, Bf(M0), Al(FALSE, FALSE, {}), Bf(Al(FALSE, FALSE, {})), Al(TRUE, FALSE, {}), Bf(Al(TRUE, FALSE, {})),
                        X1, Bf(X1), [M0 EXCEPT !.rewrite = RW(Str("2.3.4.5"))], Bf([M0 EXCEPT !.rewrite = RW(Str("2.3.4.5"))]) >>
 BadfilterSrc  == << SAl(FALSE, {"urlblock"}), Bf(SAl(FALSE, {"urlblock"})), SAl(FALSE, {"genericblock"}) >>
 
